@@ -504,6 +504,7 @@ def run(chk):
     _tailwriters_rule(chk, prog)
     _pendingmark_rule(chk, prog)
     _givewithdraw_rule(chk, prog)
+    _sweepbound_rule(chk, prog)
 
 
 # who may append at the TAIL of a channel's queues; everything that hands an element back (a value bounced by a reader
@@ -736,3 +737,35 @@ def _givewithdraw_rule(chk, prog):
         else:
             chk.ok(rule, "janet_channel_push_with_lock: a waiting select clause leaves no value behind")
     chk.floor(rule, 1, len(regs))
+
+
+def _sweepbound_rule(chk, prog):
+    """A pass that takes every entry out of a ring and puts the live ones back at the tail visits each entry once only
+    if it runs for the number of entries the ring had when it started.  A bound that is re-read from the ring while
+    entries are being dropped shrinks with every drop: the pass stops early and leaves the live waiters rotated - the
+    oldest waiter is no longer first, so a later give wakes a younger one."""
+    rule = "C06-SWEEPBOUND"
+    chk.rule(rule, "a loop that pops entries from a ring and re-queues some of them runs for a count fixed before the loop, not one re-read from the ring")
+    n = 0
+    for fn in prog.tus["ev.c"].funcs.values():
+        for lp in [x for x in fn.nodes if x.k == "for"]:
+            body = list(lp.kids[3].walk()) if len(lp.kids) > 3 and lp.kids[3] is not None else []
+            pops = [c for c in body if c.k == "call" and c.callee == "janet_q_pop"]
+            pushes = [c for c in body if c.k == "call" and c.callee in ("janet_q_push", "janet_q_push_head")]
+            if not pops or not pushes or lp.kids[1] is None:
+                continue
+            q = pops[0].args[0].text()
+            if not any(c.args[0].text() == q for c in pushes):
+                continue
+            n += 1
+            chk.instance(rule)
+            chk.analysed(fn)
+            live = [c for c in lp.kids[1].walk() if c.k == "call" and c.callee == "janet_q_count" and c.args and c.args[0].text() == q]
+            if live:
+                chk.violation(rule, "ev.c", fn.name, "live-bound", lp.kids[1].loc,
+                              "`%s` bounds a pass that drops entries from %s by the ring's current count: every dropped entry ends the "
+                              "pass one step earlier, the rotation stops half way and the waiters are left in a different order" % (
+                                  lp.kids[1].text()[:50], q))
+            else:
+                chk.ok(rule, "%s: the pass over %s runs for a count taken before it started" % (fn.name, q))
+    chk.floor(rule, 1, n)
